@@ -626,11 +626,16 @@ def _c13_rewrite(ctx, params):
     rewrites every stored gradient with g2 at the stored point."""
     from symx.oracle import UF
     from .c10 import EPS
+    from fractions import Fraction as _Fr
     W, prob, gtol = _setup(ctx, params)
     np = W.np
     n = prob.n
     info = dict(params)
     at = params["at"]
+    if params.get("eps_SY") is not None:
+        # the solver's curvature threshold option: every filter / acceptance test of the run uses it
+        EPS = _Fr(params["eps_SY"])
+    eps_kw = dict(eps_SY=float(EPS)) if params.get("eps_SY") is not None else {}
     f2, g2 = UF("qf", 1), UF("qg", n)
     R = Run(prob, "R")
     seen = dict(X=None)
@@ -661,6 +666,7 @@ def _c13_rewrite(ctx, params):
         from .orch_single import make_checkpoint
         ck, ck_info = make_checkpoint(ctx, W, prob, dict(ck_pairs=params["ck_pairs"], ck_nit=1, ck_nfev=2))
         extra = dict(checkpoint=ck, x0=ck["x"])
+    extra.update(eps_kw)
     R.execute(_cfg(params, gtol, callback_kind="false", update_fun_def=upd, **extra))
     if R.exc is not None:
         return _exc(ctx, R, info, "R")
@@ -744,7 +750,7 @@ def _c13_rewrite(ctx, params):
         hinv = W.sp.optimize.LbfgsInvHessProduct(np.array(sk).reshape(mm, n) if mm else np.zeros((0, n)), np.array(yk).reshape(mm, n) if mm else np.zeros((0, n)))
         ck = W.sp.optimize.OptimizeResult(fun=seen["f"], jac=np.array(seen["grad"]), nfev=1, njev=1, nit=0, status=1, message="", x=np.array(seen["x"]), success=True, hess_inv=hinv)
         d1 = len(ST.dir_calls)
-        CK.execute(_cfg(params, gtol, maxiter=1, x0=np.array(seen["x"]), checkpoint=ck))
+        CK.execute(_cfg(params, gtol, maxiter=1, x0=np.array(seen["x"]), checkpoint=ck, **eps_kw))
         if CK.exc is None:
             dck = ST.dir_calls[d1:]
             if dck:
